@@ -300,7 +300,7 @@ func (e *env) storm() {
 	}
 	var panicked atomic.Value
 	if err := renewRecover(s.sc, &panicked); err != nil {
-		e.r.InfraError = s.name + ": first renewal failed: " + err.Error()
+		e.blocked(s.name + ": first renewal failed: " + err.Error())
 		s.stop()
 		return
 	}
@@ -351,7 +351,7 @@ func (e *env) liveExpiry() {
 	s.p.mu.Unlock()
 	var panicked atomic.Value
 	if err := renewRecover(s.sc, &panicked); err != nil {
-		e.r.InfraError = s.name + ": first renewal failed: " + err.Error()
+		e.blocked(s.name + ": first renewal failed: " + err.Error())
 		s.stop()
 		return
 	}
@@ -535,7 +535,7 @@ func (e *env) around(seed uint64, idx int) {
 		e.r.Hit("scenario:renew-panicked")
 	case hung:
 		// a stuck call is a failure of the property unless the machine is the reason: report as infra with a note
-		e.r.InfraError = s.name + ": calls did not return within 45 s"
+		e.blocked(s.name + ": calls did not return within 45 s")
 	case failed.Load() != nil:
 		// oracle: requests issued around a renewal complete normally
 		e.r.Fail(s.name, "", fmt.Sprintf("%v", failed.Load()))
@@ -647,7 +647,7 @@ func (e *env) aroundSecure(seed uint64, idx int, mode ua.MessageSecurityMode) {
 	select {
 	case <-done:
 	case <-time.After(90 * time.Second):
-		e.r.InfraError = name + ": calls did not return"
+		e.blocked(name + ": calls did not return")
 		return
 	}
 	evs := ctl.Events()
@@ -696,6 +696,90 @@ func (e *env) aroundSecure(seed uint64, idx int, mode ua.MessageSecurityMode) {
 	}
 }
 
+// renewWithOutstanding: a request is outstanding (written, the peer holds the answer back) when a renewal comes
+// due. The renewal must still go out and complete: pendingReq only covers the sending of a request, not the wait
+// for its response. Then the held answer is released and the request completes under the new token.
+func (e *env) renewWithOutstanding() {
+	s := e.open("renewal-with-outstanding-request", 30, 3600000, false)
+	if s == nil {
+		return
+	}
+	defer s.stop()
+	type res struct {
+		err error
+		ok  bool
+	}
+	out := make(chan res, 1)
+	actx, acancel := context.WithCancel(context.Background())
+	defer acancel()
+	go func() {
+		var x res
+		x.err = s.sc.SendRequestWithTimeout(actx, req(1), nil, 120*time.Second, func(v ua.Response) error {
+			_, x.ok = v.(*ua.ReadResponse)
+			return nil
+		})
+		out <- x
+	}()
+	// the request is on the wire once the peer has seen it
+	seen := func() (uint32, bool) {
+		s.p.mu.Lock()
+		defer s.p.mu.Unlock()
+		for _, c := range s.p.wire {
+			if c.Type == "MSG" {
+				return c.ReqID, true
+			}
+		}
+		return 0, false
+	}
+	var reqID uint32
+	for dl := time.Now().Add(60 * time.Second); ; {
+		if id, ok := seen(); ok {
+			reqID = id
+			break
+		}
+		if time.Now().After(dl) {
+			e.blocked(s.name + ": the request was not written")
+			return
+		}
+		time.Sleep(time.Millisecond)
+	}
+	var panicked atomic.Value
+	rdone := make(chan error, 1)
+	t0 := time.Now()
+	go func() { rdone <- renewRecover(s.sc, &panicked) }()
+	e.r.Count(s.name, true)
+	e.r.Hit("scenario:renewal-with-outstanding-request")
+	select {
+	case err := <-rdone:
+		if err != nil {
+			e.r.Fail(s.name, "", fmt.Sprintf("renewal while a request is outstanding failed: %v", err))
+			return
+		}
+	case <-time.After(45 * time.Second):
+		// oracle: the token is renewed before it expires, whatever requests are waiting for their responses
+		e.r.Fail(s.name, "", "a renewal that came due while a request was waiting for its response did not go out within 45 s: renew blocks (gate closed, no OPN request on the wire) until the outstanding request returns")
+		return
+	}
+	el := time.Since(t0)
+	// now the held answer: it is delivered, the request completes
+	s.p.mu.Lock()
+	tok := s.p.nextTok
+	s.p.mu.Unlock()
+	h.PeerSendMSG(s.p.conn, chanID, tok, &s.p.seq, reqID, &ua.ReadResponse{ResponseHeader: h.RespHeader(reqID, ua.StatusOK)}, 8000)
+	select {
+	case x := <-out:
+		if x.err != nil || !x.ok {
+			e.r.Fail(s.name, "", fmt.Sprintf("the request that was outstanding during the renewal did not complete: %v", x.err))
+			return
+		}
+	case <-time.After(45 * time.Second):
+		e.r.Fail(s.name, "", "the request that was outstanding during the renewal never got its (delivered) response")
+		return
+	}
+	e.r.Hit("outstanding-request:renewal-completed")
+	e.r.Sample(fmt.Sprintf("%s: renewal completed in %v while request %d waited for its answer", s.name, el.Round(time.Millisecond), reqID))
+}
+
 // wgRace tries to make pendingReq.Add hit the window between the wake-up and the return of pendingReq.Wait.
 func (e *env) wgRace(attempts int) {
 	for a := 0; a < attempts; a++ {
@@ -722,8 +806,8 @@ func (e *env) wgRace(attempts int) {
 			}()
 		}
 		send(1) // A: counted (pendingReq.Add done), parked before instance.Lock
-		if holdA.WaitReached(20*time.Second) == nil {
-			e.r.InfraError = s.name + ": sender A did not reach send.beforeLock"
+		if holdA.WaitReached(60*time.Second) == nil {
+			e.blocked(s.name + ": sender A did not reach send.beforeLock")
 			s.stop()
 			return
 		}
@@ -736,8 +820,8 @@ func (e *env) wgRace(attempts int) {
 			}
 			held = append(held, hb)
 			send(10 + i)
-			if hb.WaitReached(20*time.Second) == nil {
-				e.r.InfraError = s.name + ": sender B did not reach send.afterActive"
+			if hb.WaitReached(60*time.Second) == nil {
+				e.blocked(s.name + ": sender B did not reach send.afterActive")
 				s.stop()
 				return
 			}
@@ -757,17 +841,19 @@ func (e *env) wgRace(attempts int) {
 		rdone := make(chan error, 1)
 		go func() { rdone <- renewRecover(s.sc, &panicked) }()
 		// the renewer is inside pendingReq.Wait once it passed renew.beforeWait
-		if s.ctl.WaitEvent(20*time.Second, func(ev *h.SendEv) bool { return ev.Name == "renew.beforeWait" }) == nil {
-			e.r.InfraError = s.name + ": renewer did not reach pendingReq.Wait"
+		if s.ctl.WaitEvent(60*time.Second, func(ev *h.SendEv) bool { return ev.Name == "renew.beforeWait" }) == nil {
+			e.blocked(s.name + ": renewer did not reach pendingReq.Wait")
 			s.stop()
 			return
 		}
 		time.Sleep(2 * time.Millisecond)
 		holdA.Release()
+		stuck := false
 		select {
 		case <-rdone:
-		case <-time.After(30 * time.Second):
-			e.r.InfraError = s.name + ": renew did not return"
+		case <-time.After(45 * time.Second):
+			e.blocked(s.name + ": renew did not return although every request it had to wait for was written long ago")
+			stuck = true
 		}
 		s.ctl.ReleaseAll()
 		acancel()
@@ -789,7 +875,7 @@ func (e *env) wgRace(attempts int) {
 			}
 			return
 		}
-		if e.r.InfraError != "" {
+		if e.r.InfraError != "" || stuck {
 			return
 		}
 	}
@@ -856,7 +942,7 @@ func (e *env) rekeyForced() {
 		}
 	}()
 	call := func(tag int) error {
-		return csc.SendRequestWithTimeout(context.Background(), req(tag), nil, 20*time.Second, func(v ua.Response) error {
+		return csc.SendRequestWithTimeout(context.Background(), req(tag), nil, 60*time.Second, func(v ua.Response) error {
 			if _, ok := v.(*ua.ReadResponse); !ok {
 				return fmt.Errorf("got %T", v)
 			}
@@ -891,7 +977,7 @@ func (e *env) rekeyForced() {
 	hold := ctl.BlockAt(func(ev *h.SendEv) bool { return ev.Name == "srvopn.asym" })
 	rdone := make(chan error, 1)
 	go func() { rdone <- csc.Renew(context.Background()) }()
-	if hold.WaitReached(20*time.Second) == nil {
+	if hold.WaitReached(60*time.Second) == nil {
 		e.r.Notes = append(e.r.Notes, name+": server did not reach handleOpenSecureChannelRequest (machine slow?)")
 		return
 	}
@@ -901,7 +987,7 @@ func (e *env) rekeyForced() {
 	var rerr error
 	select {
 	case rerr = <-rdone:
-	case <-time.After(20 * time.Second):
+	case <-time.After(60 * time.Second):
 		rerr = fmt.Errorf("renew did not return")
 	}
 	e.r.Count(name, true)
@@ -1018,6 +1104,27 @@ func (e *env) modelOnly() {
 	}
 }
 
+// blocked records that the implementation did not get to a point it has to reach (or did something it must
+// not do) within the generous time allowed: the scenario is the failing input. Only trouble that says nothing
+// about the library (sockets, keys, the driver, a machine too slow for a timing verdict) is reported as infra.
+func (e *env) blocked(what string) {
+	e.r.Fail(what, "", "the implementation did not complete this step (it blocks, or the step got lost): "+what)
+}
+
+// hasNew: an unclassified oracle failure or a model disagreement has been recorded — the verdict of the run is
+// settled, the remaining (real-time) scenarios are skipped so that the failing input is reported quickly.
+func (e *env) hasNew() bool {
+	if len(e.r.Disagreements) > 0 {
+		return true
+	}
+	for _, f := range e.r.OracleFailures {
+		if f.Sig == "" {
+			return true
+		}
+	}
+	return false
+}
+
 func main() {
 	o := h.ParseOpts()
 	r := h.NewResult("C16", o)
@@ -1048,6 +1155,8 @@ func main() {
 			e.liveExpiry()
 		} else if strings.HasPrefix(o.Replay, "live-lifetime") {
 			e.storm()
+		} else if strings.HasPrefix(o.Replay, "renewal-with-outstanding") {
+			e.renewWithOutstanding()
 		} else if strings.HasPrefix(o.Replay, "server-rekey") {
 			e.rekeyForced()
 		} else if strings.HasPrefix(o.Replay, "waitgroup-race") {
@@ -1057,40 +1166,43 @@ func main() {
 		return
 	}
 	e.delays()
-	if r.InfraError == "" {
+	if r.InfraError == "" && !e.hasNew() {
 		e.floatStep()
 	}
 	t0 := time.Now()
 	n := o.N(60, 2000)
-	for i := 0; i < n && r.InfraError == ""; i++ {
+	for i := 0; i < n && r.InfraError == "" && !e.hasNew(); i++ {
 		e.around(o.Seed, i)
 		if !o.Thorough() && time.Since(t0) > 30*time.Second {
 			r.Notes = append(r.Notes, fmt.Sprintf("stopped after %d scenarios (time budget)", i+1))
 			break
 		}
 	}
+	if r.InfraError == "" && !e.hasNew() {
+		e.renewWithOutstanding()
+	}
 	nSec := o.N(4, 100)
-	for i := 0; i < nSec && r.InfraError == ""; i++ {
+	for i := 0; i < nSec && r.InfraError == "" && !e.hasNew(); i++ {
 		mode := ua.MessageSecurityModeSign
 		if i%2 == 1 {
 			mode = ua.MessageSecurityModeSignAndEncrypt
 		}
 		e.aroundSecure(o.Seed, i, mode)
 	}
-	if r.InfraError == "" {
+	if r.InfraError == "" && !e.hasNew() {
 		e.wgRace(o.N(120, 2000))
 	}
-	if r.InfraError == "" {
+	if r.InfraError == "" && !e.hasNew() {
 		e.rekeyForced()
 	}
-	if r.InfraError == "" {
+	if r.InfraError == "" && !e.hasNew() {
 		e.liveExpiry()
 	}
-	if r.InfraError == "" {
+	if r.InfraError == "" && !e.hasNew() {
 		e.storm() // last: its renewal goroutines may outlive the scenario for a moment
 	}
 	for _, b := range []string{"delay:in-window", "f64:floor", "f64:floor-plus-one", "scenario:live-1000ms", "live:renewed-in-window", "live:requests-survive-renewals-and-expiry", "scenario:around-renewal", "outcome:all-requests-completed",
-		"scenario:around-renewal-secure-mode-2", "scenario:around-renewal-secure-mode-3", "label:rLock", "label:rInstall", "label:write", "guard:inside", "guard:outside", "scenario:waitgroup-race"} {
+		"outstanding-request:renewal-completed", "scenario:around-renewal-secure-mode-2", "scenario:around-renewal-secure-mode-3", "label:rLock", "label:rInstall", "label:write", "guard:inside", "guard:outside", "scenario:waitgroup-race"} {
 		if r.Distribution[b] == 0 {
 			r.Unreached = append(r.Unreached, b)
 		}
